@@ -313,9 +313,14 @@ int muggle_str_tou(const char *str, unsigned int *pval, int base)
 		}
 	}
 
-	if (ret == ULONG_MAX)
+	if (errno == ERANGE || ret > UINT_MAX)
 	{
-		// out of range or negative integer
+		// out of range
+		return 0;
+	}
+	if (ret != 0 && str[muggle_str_lstrip_idx(str)] == '-')
+	{
+		// negative integer
 		return 0;
 	}
 
